@@ -113,6 +113,42 @@ chk('C11', 'translation_validation',
     'z3 entrywise equality of covariance structures after real RandomVariables operations',
     'DESIGN.md section 3 C11', 'E2')
 
+chk('C06', 'other',
+    'Partial claim. Bounded-exhaustive symbolic execution of the real constructors and value-object protocol: '
+    'Parameter.create/replace keep lower <= init <= upper and init not NaN, or raise ValueError, for every IEEE double '
+    'triple; Parameters.create/+/replace and RandomVariables.create give unique names or ValueError; == is reflexive, '
+    'symmetric, !=-consistent and consistent with hash and copy/deepcopy for Parameter, Parameters, ColumnInfo, DataInfo, '
+    'VariabilityLevel/Hierarchy, EstimationStep, SimulationStep, ExecutionSteps; public properties cannot be assigned '
+    'and replace() leaves the original unchanged.',
+    'NOT claimed: "no public function mutates its argument incl. DataFrame contents", statement/code well-formedness, '
+    'Expr-bearing classes and Model (pandas/symengine are not symbolically reachable). Trusted: structural model of '
+    'builtin hash (failing laws re-decided with the real hash), Unit table, np.isnan/float wrappers, FakeDist.',
+    'symbolic execution (CrossHair+z3, IEEE FP theory) of real constructors, __eq__/__hash__, copy, replace',
+    'DESIGN.md section 3 C06', 'E1')
+
+chk('C12', 'other',
+    'Partial claim. For every symbolic field valuation within the bounds (strings <=3, all floats and ints, flags, each '
+    'option over its table, collections <=2-3) of Parameter, Parameters, ColumnInfo, DataInfo, VariabilityLevel/Hierarchy, '
+    'EstimationStep, SimulationStep, ExecutionSteps, LogEntry: to_dict contains only JSON types and leaves the object '
+    'unchanged, from_dict(to_dict(x)) == x, and from_dict(json.loads(json.dumps(to_dict(x)))) == x.',
+    'NOT claimed: ModelHash stability across processes / PYTHONHASHSEED / construction order, the generic-code parser '
+    'round trip, Expr-bearing components and Model. Trusted: JSON contract model (cross-checked against the real json '
+    'module on failing paths, samples and jsonreal_* obligations) and the stubs shared with C06.',
+    'symbolic execution (CrossHair+z3) of real to_dict/from_dict with a structural JSON model',
+    'DESIGN.md section 3 C12', 'E1')
+
+chk('C08', 'translation_validation',
+    'Request sequences over the MFL feature alphabet (absorption, elimination, peripherals, transits, lag time; all of '
+    'length 1, length 2 within budget) run through the real setters from corpus models. z3 decides for all numeric '
+    'inputs that requesting a feature twice equals once and that undoing a feature restores the previous model function '
+    '(statements, dA/dt matched by dynamics, dose attachments, unmatched parameters by position). The detector / '
+    'other-category / totality clauses are finite concrete comparisons and are labelled so.',
+    'Trusted: lib/semeq.py reference interpretation; refusal kinds ValueError/NotImplementedError; the absorption-family '
+    'members (absorption, transits, lag) interact, so their detector and reversibility clauses are demanded only from '
+    'the default state. Metabolite/effect/TMDD features are outside.',
+    'z3 model-function equivalence for idempotence/reversibility of real feature setters + concrete detectors',
+    'DESIGN.md section 3 C08', 'E2')
+
 NA['C14'] = ('derivations are vectorised pandas pipelines (groupby/cumsum/explode/query); CrossHair realises at the '
              'first DataFrame call and no faithful SMT semantics of pandas exists here; solver-generated datasets '
              'would be sampling')
